@@ -15,12 +15,19 @@
 (*     is history-free: the expected outcome of a step is that of the same     *)
 (*     request alone - which is exactly what a pooled, stateful reader can     *)
 (*     break.                                                                  *)
+(*  "hist" inputs: HISTORIES of HL events over requests (identity, gzip, br,   *)
+(*     zstd, range, conditional) and the two environment events "mod" (the     *)
+(*     file is replaced on disk: new bytes, mtime + 2 s) and "new" (a new      *)
+(*     handler instance / cache expiry).  Expected per request: the outcome    *)
+(*     for every version the handler may legitimately serve.                   *)
 (* Init enumerates all inputs; RefInv meta-checks the reference on each.      *)
 EXTENDS ByteRange, Json
 
 NB == @@NB@@
 Sizes == @@SIZES@@
 SL == @@SL@@
+HL == @@HL@@
+HSizes == @@HSIZES@@
 
 Items == <<"i", "t", "e", "m", "s", "=">>
 Units == { BytesEq, SubSeq(BytesEq, 1, 5), Items, <<>> }
@@ -61,7 +68,22 @@ Menu(n) == { Rq("GET", FALSE, <<>>, "none"),
              Rq("GET", FALSE, <<>>, "at") }
 SeqInputs == UNION { [k : {"seq"}, n : {n}, steps : UNION { [1..l -> Menu(n)] : l \in 2..SL }] : n \in Sizes }
 
-Inputs == PbrInputs \cup ReqInputs \cup SeqInputs
+\* ---- histories -----------------------------------------------------------------
+\* only histories with  request ... mod ... request  are of interest: a modification no
+\* request follows is unobservable, one no request precedes is just another initial file
+HistSeqs == { h \in [1..HL -> HEvents] : \E i \in 2..HL : \E j \in (i + 1)..HL : \E g \in 1..(i - 1) :
+                h[i] = "mod" /\ HIsReq(h[j]) /\ HIsReq(h[g]) }
+HistInputs == [k : {"hist"}, n : HSizes, evs : HistSeqs]
+
+HistStepVec(evs, i, n0) ==
+  LET st == HStateAt(evs, i - 1) e == evs[i] IN
+  IF ~HIsReq(e) THEN [ev |-> e, ver |-> HStateAt(evs, i).ver]
+  ELSE LET q == HReq(e, st.ver) IN
+       [ev |-> e, ver |-> st.ver, m |-> q.m, has |-> q.has, v |-> q.v, ae |-> q.ae, imsv |-> q.imsv,
+        outs |-> SetToSeq({ LET o == HOutcome(q, w, n0) IN [w |-> o.w, n |-> o.n, st |-> SetToSeq(o.st), s |-> o.s, e |-> o.e]
+                            : w \in st.allowed })]
+
+Inputs == PbrInputs \cup ReqInputs \cup SeqInputs \cup HistInputs
 
 ReqVec(n, q) == LET r == SelectFor(q.v, n) IN
        [k |-> "req", n |-> n, has |-> q.has, v |-> q.v, ims |-> q.ims, m |-> q.m,
@@ -72,6 +94,7 @@ Vec(x) ==
     [] x.k = "req" -> ReqVec(x.n, x)
     \* history-free: each step is expected to behave exactly like the single request
     [] x.k = "seq" -> [k |-> "seq", n |-> x.n, steps |-> [i \in 1..Len(x.steps) |-> ReqVec(x.n, x.steps[i])]]
+    [] x.k = "hist" -> [k |-> "hist", n |-> x.n, hsteps |-> [i \in 1..Len(x.evs) |-> HistStepVec(x.evs, i, x.n)]]
 
 ASSUME ndJsonSerialize("vectors.ndjson", SetToSeq({ Vec(x) : x \in Inputs }))
 
@@ -90,4 +113,12 @@ ReqOK(n, q) == LET f == ParseForm(q.v) r == Select(f, n) st == Statuses(q.has, r
 RefInv == CASE inp.k = "pbr" -> SelectOK(ParseForm(inp.v), inp.n)
             [] inp.k = "req" -> ReqOK(inp.n, inp)
             [] inp.k = "seq" -> \A i \in 1..Len(inp.steps) : ReqOK(inp.n, inp.steps[i])
+            [] inp.k = "hist" -> \A i \in 0..Len(inp.evs) : LET st == HStateAt(inp.evs, i) IN
+                 /\ st.ver \in st.allowed                           \* the version on disk may always be served
+                 /\ \A w \in st.allowed : w <= st.ver /\ w >= 0
+                 /\ (i > 0 /\ inp.evs[i] = "new") => st.allowed = {st.ver}   \* a new instance has nothing cached
+                 /\ (i < Len(inp.evs) /\ HIsReq(inp.evs[i + 1])) =>
+                      \A w \in st.allowed : LET o == HOutcome(HReq(inp.evs[i + 1], st.ver), w, inp.n) IN
+                         /\ o.st # {} /\ o.st \subseteq {200, 206, 304}
+                         /\ (206 \in o.st => 0 <= o.s /\ o.s <= o.e /\ o.e < o.n)
 =============================================================================
